@@ -74,7 +74,172 @@ def all_cases(backends: tuple = ("asyncio", "trio")):
                                                "cps": 1 if fasync else 0}
 
 
+def chain_cases(backends: tuple = ("asyncio", "trio")):
+    """A factory whose callback looks another factory-made resource up (a session factory needing the engine)."""
+    for a_async in (False, True):
+        for b_async in (False, True):
+            for api in APIS:
+                for nested in (False, True):
+                    for racers in (1, 2, 3):
+                        for b_first in (False, True):
+                            for backend in backends:
+                                yield {"kind": "reentrant", "family": "chain", "backend": backend, "sched_seed": 0, "a_async": a_async,
+                                       "b_async": b_async, "api": api, "nested": nested, "racers": racers, "b_first": b_first, "cps": 1}
+
+
+def run_chain(case: dict, prop: str, classes: set[str]) -> Outcome:
+    out = Outcome()
+    st: dict[str, Any] = {"a": 0, "b": 0, "harness_exc": None}
+    api = case["api"]
+    sync_api = api in ("m_nowait", "f_nowait", "inj_sync")
+    desc = (f"[factory A ({'async' if case['a_async'] else 'sync'}) looks up the product of factory B ({'async' if case['b_async'] else 'sync'}); "
+            f"{case['racers']} task(s) look A up through {api}; {'child' if case['nested'] else 'same'} context; "
+            f"B {'generated before' if case['b_first'] else 'not generated before'}]")
+
+    def disc(cls: str, bucket: str, msg: str) -> None:
+        if cls in classes:
+            out.add(cls, f"{cls}:chain-{bucket}", msg + " " + desc)
+
+    async def main() -> None:
+        from asphalt.core import AsyncResourceError, Context, ResourceEvent, get_resource, get_resource_nowait, inject, resource
+
+        prod_a, prod_b = R0(("A",)), R2(("B",))
+        seen_b: list = []
+
+        if case["b_async"]:
+            async def fb() -> Any:
+                st["b"] += 1
+                await checkpoints(case["cps"])
+                return prod_b
+        else:
+            def fb() -> Any:  # type: ignore[misc]
+                st["b"] += 1
+                return prod_b
+
+        if case["a_async"]:
+            async def fa() -> Any:
+                st["a"] += 1
+                await checkpoints(case["cps"])
+                seen_b.append(await get_resource(R2, NAME))
+                await checkpoints(case["cps"])
+                return prod_a
+        else:
+            def fa() -> Any:  # type: ignore[misc]
+                st["a"] += 1
+                seen_b.append(get_resource_nowait(R2, NAME))
+                return prod_a
+
+        # what must happen
+        a_fails = None
+        if sync_api and case["a_async"]:
+            a_fails = "AsyncResourceError"  # the sync API cannot run A
+        elif not case["a_async"] and case["b_async"] and not case["b_first"]:
+            a_fails = "AsyncResourceError"  # A's own sync lookup cannot run B
+
+        async def one_lookup(ctx: Any, results: list) -> None:
+            try:
+                if api == "m_nowait":
+                    r = ctx.get_resource_nowait(R0, NAME)
+                elif api == "m_async":
+                    r = await ctx.get_resource(R0, NAME)
+                elif api == "f_nowait":
+                    r = get_resource_nowait(R0, NAME)
+                elif api == "f_async":
+                    r = await get_resource(R0, NAME)
+                elif api == "inj_sync":
+                    def fn(*, r=resource(NAME)):  # type: ignore[no-untyped-def]
+                        return r
+                    fn.__annotations__ = {"r": R0}
+                    r = inject(fn)()
+                else:
+                    async def afn(*, r=resource(NAME)):  # type: ignore[no-untyped-def]
+                        return r
+                    afn.__annotations__ = {"r": R0}
+                    r = await inject(afn)()
+                results.append(("ok", r))
+            except Exception as exc:
+                results.append(("raise", exc))
+
+        async def scenario(ctx: Any) -> None:
+            if case["b_first"]:
+                await ctx.get_resource(R2, NAME)
+            cm = ctx.resource_added.stream_events(max_queue_size=1000)
+            it = await cm.__aenter__()
+            results: list = []
+            async with anyio.create_task_group() as tg:
+                for _ in range(case["racers"]):
+                    tg.start_soon(one_lookup, ctx, results)
+            sentinel = ResourceEvent((), "__verif_sentinel__", None, False)
+            ctx.resource_added.dispatch(sentinel)
+            events = []
+            while True:
+                ev = await it.__anext__()
+                if ev is sentinel:
+                    break
+                events.append((tuple(sorted(x.__name__ for x in ev.resource_types)), ev.resource_name, bool(ev.is_factory), ev.source is ctx))
+            await cm.__aexit__(None, None, None)
+            view_a, view_b = ctx.get_resources(R0).get(NAME), ctx.get_resources(R2).get(NAME)
+            if a_fails:
+                bad = [r for r in results if r[0] != "raise" or type(r[1]).__name__ != a_fails]
+                if bad:
+                    disc("generation", "should-fail", f"lookups gave {[(k, short_exc(v) if k == 'raise' else repr(v)) for k, v in results]}, "
+                         f"expected every one to raise {a_fails}")
+                if view_a is not None:
+                    disc("generation", "failed-generation-registered", f"after the failed lookups (R0, {NAME!r}) holds {view_a!r}")
+                return
+            for k, v in results:
+                if k == "raise":
+                    disc("generation", "lookup-raised", f"a lookup raised {short_exc(v)}")
+                    return
+                if v is not prod_a:
+                    disc("generation", "wrong-object", f"a lookup returned {v!r}, expected A's product")
+                    disc("identity", "wrong-object", f"a lookup returned {v!r}, expected A's product")
+            if st["a"] != 1 or st["b"] != 1:
+                disc("generation", "factory-calls", f"factory A was called {st['a']} times, factory B {st['b']} times; each must be called "
+                     f"once for the context")
+            if view_a is not prod_a or view_b is not prod_b or any(x is not prod_b for x in seen_b):
+                disc("generation", "registry", f"afterwards the context holds A={view_a!r}, B={view_b!r}; A's callback saw {seen_b!r}")
+            expected = ([] if case["b_first"] else [(("R2",), NAME, False, True)]) + [(("R0",), NAME, False, True)]
+            if events != expected:
+                disc("event", "log", f"events {events}, expected {expected}")
+
+        async with Context() as root:
+            root.add_resource_factory(fa, NAME, types=[R0])
+            root.add_resource_factory(fb, NAME, types=[R2])
+            if case["nested"]:
+                async with Context() as child:
+                    await scenario(child)
+                if root.get_resources(R0) or root.get_resources(R2):
+                    disc("generation", "leaked-to-parent", "the parent context shows generated resources after a generation in its child")
+            else:
+                await scenario(root)
+
+    async def guarded() -> None:
+        try:
+            await main()
+        except BaseException as exc:
+            for leaf in flatten_exc(exc):
+                if isinstance(leaf, HarnessError) or (isinstance(leaf, Exception) and innermost_is_harness(leaf)):
+                    st["harness_exc"] = leaf
+            raise
+
+    try:
+        run_virtual(case["backend"], guarded, sched_seed=case.get("sched_seed", 0))
+    except Deadlock as exc:
+        disc("generation", "deadlock", f"deadlocked: {exc}")
+    except BaseException as exc:
+        if st["harness_exc"] is not None or isinstance(exc, HarnessError):
+            raise HarnessError(f"harness exception inside the run: {short_exc(st['harness_exc'] or exc)}") from exc
+        disc("generation", "history-raised:" + type(exc).__name__, f"history raised {short_exc(exc)}")
+    out.labels = sorted({case["backend"], "chained-factories", "api=" + api, f"racers={case['racers']}"})
+    out.nontrivial = case["racers"] > 1 or case["nested"]
+    out.trace = {"chain": True}
+    return out
+
+
 def run_case(case: dict, prop: str, classes: set[str]) -> Outcome:
+    if case.get("family") == "chain":
+        return run_chain(case, prop, classes)
     out = Outcome()
     st: dict[str, Any] = {"calls": 0, "inner_errors": [], "harness_exc": None}
     ftypes, inner, t, api = case["ftypes"], case["inner"], case["t"], case["api"]
